@@ -471,8 +471,9 @@ fn dir_read_oracle(r: &mut Report, files: &[(S, S)], got: &Option<Vec<MClass>>) 
 // special-looking method names: every source kind with every target kind
 const SPECIAL_SRC: [&str; 4] = ["<init>", "<clinit>", "run", "COMMENT"];
 /// `=` stands for "the source name itself" (identity mapping)
-const SPECIAL_DST: [Option<&str>; 6] = [None, Some("<init>"), Some("<clinit>"), Some("="), Some("other"), Some("ACC:t")];
-const SPECIAL_DESC: [&str; 6] = ["()V", "(I)V", "(J)V", "()I", "(Z)V", "(B)V"];
+/// round 7: near-keyword targets too (`ACC:` inside / at the end of a name, lower case) — only a name that STARTS with `ACC:` is a modifier
+const SPECIAL_DST: [Option<&str>; 9] = [None, Some("<init>"), Some("<clinit>"), Some("="), Some("other"), Some("ACC:t"), Some("xACC:t"), Some("tACC:"), Some("acc:t")];
+const SPECIAL_DESC: [&str; 9] = ["()V", "(I)V", "(J)V", "()I", "(Z)V", "(B)V", "(LxACC:y;)V", "(S)LtACC:;", "(C)V"];
 fn special_meth(si: usize, di: usize) -> MMeth {
 	let src = SPECIAL_SRC[si];
 	let dst = SPECIAL_DST[di].map(|d| s(if d == "=" { src } else { d }));
@@ -490,7 +491,12 @@ fn special_set(k: usize) -> MMappings {
 	c.fields.push(MField { desc: s("Z"), names: vec![Some(s("acc")), Some(s("ACC:f"))], doc: None });
 	if k >= 2 { for me in &mut c.methods { if me.desc == s("(I)V") { me.params.push(MParam { index: 1, names: vec![None, Some(s("init"))], doc: Some(s("on a special method")) }); } } }
 	let inner = MClass { names: vec![Some(s("p/Special$In")), Some({ let mut d = file_name(&c); d.extend(s("$In")); d })], doc: None, fields: vec![], methods: vec![special_meth(1, 2), special_meth(0, 1), special_meth(1, 0)] };
-	let mut v = vec![c, inner];
+	// `ACC:` inside names and descriptors (not at the start): class targets, member targets and descriptors keep it (round 7)
+	let near = MClass { names: vec![Some(s("p/NearAcc")), Some(s("q/xACC:y"))], doc: None,
+		fields: vec![MField { desc: s("LxACC:y;"), names: vec![Some(s("f")), Some(s("g"))], doc: None }, MField { desc: s("[LtACC:;"), names: vec![Some(s("h")), None], doc: None }],
+		methods: vec![MMeth { desc: s("()LtACC:;"), names: vec![Some(s("m")), Some(s("n"))], doc: None, params: vec![] }] };
+	let near2 = MClass { names: vec![Some(s("p/NearAcc2")), Some(s("tACC:"))], doc: None, fields: vec![], methods: vec![] };
+	let mut v = vec![c, inner, near, near2];
 	if k % 2 == 1 { v.reverse(); }
 	mm(v)
 }
@@ -532,6 +538,17 @@ fn gen_valid(rng: &mut Rng) -> MMappings {
 	for c in &mut m.classes { if rng.chance(1, 10) { c.names[1] = c.names[0].clone(); } }
 	// root targets: sometimes with `$`
 	for c in &mut m.classes { if rng.chance(1, 8) { if let Some(d) = &mut c.names[1] { d.extend(s("$X")); } } }
+	// root targets and descriptors with a keyword-like part that is not at the start (round 7)
+	for c in &mut m.classes { if rng.chance(1, 12) { if let Some(d) = &mut c.names[1] { d.extend(s(*rng.pick(&["ACC:", "xACC:y", "_COMMENT", "CLASS"][..]))); } } }
+	for c in &mut m.classes {
+		for i in 0..c.fields.len() {
+			if rng.chance(1, 12) {
+				let d = s(*rng.pick(&["LxACC:y;", "[LACC;", "Lp/tACC:;"][..]));
+				let name = c.fields[i].names[0].clone();
+				if !c.fields.iter().any(|x| x.names[0] == name && x.desc == d) { c.fields[i].desc = d; }
+			}
+		}
+	}
 	follow_nesting(rng, &mut m);
 	// orphans: drop some classes that have children (their children become parent-free inner classes)
 	if rng.chance(1, 3) {
@@ -979,7 +996,7 @@ pub fn run(ctx: &Ctx) -> anyhow::Result<Report> {
 	let n_valid = if ctx.thorough { 3000 } else { 320 };
 	let n_viol = if ctx.thorough { 120 } else { 16 };
 	let n_mut = if ctx.thorough { 2500 } else { 300 };
-	r.rule = format!("valid stream: {n_valid} two-namespace mapping sets from mapmodel::gen_mappings (0..7 classes, `$`-nested source names, packages, unicode, absent targets, <init> members) plus, in half of the classes, 1-3 methods from the table (<init>, <clinit>, run, COMMENT) x target (absent, <init>, <clinit>, identical to the source, other, ACC:t), identity-mapped methods, fields (1/8) and classes (1/10) \
+	r.rule = format!("valid stream: {n_valid} two-namespace mapping sets from mapmodel::gen_mappings (0..7 classes, `$`-nested source names, packages, unicode, absent targets, <init> members) plus, in half of the classes, 1-3 methods from the table (<init>, <clinit>, run, COMMENT) x target (absent, <init>, <clinit>, identical to the source, other, ACC:t, and since round 7 the near-keyword names xACC:t, tACC:, acc:t with descriptors that contain `ACC:` inside), identity-mapped methods, fields (1/8) and classes (1/10) \
 post-processed so that they satisfy enigma_ok (nested targets = target-or-source of the parent + `$` + simple name or absent, parameters get targets and lose their first-namespace name, duplicate file names removed), with orphan inner classes \
 (a parent dropped in 1/3 of the sets), root targets containing `$`, comments from 28 shapes (blank lines, leading/trailing/only spaces, runs of spaces, TAB / VT / FF / a CR inside a line, `#`, empty, NBSP); every set goes through the full oracle on the implementation \
 (stream and directory round trip against an independent normaliser, one CLASS line per class with depth = source nesting depth, every class in exactly one write_one file, write_all = concatenation of the sorted files apart from `#` lines, 2+1 shuffled insertion orders; the normaliser drops nothing but an `<init>` target) \
@@ -1170,6 +1187,48 @@ Round 4: read results are compared in exact IndexMap order; an independent refer
 				if let Some(b) = &b { if !b.starts_with(&acc.classes) { r.violation("read_into changed or reordered classes that were already in the mappings".into(), format!("property C12\nbefore (Gallina): {}\ntext (code points): {}\nafter (Gallina): {}\n", g_classes(&acc.classes), gstr(&t), g_classes(b))); } }
 				r.case("read-into", compact(&format!("CReadInto {} {} {}", g_classes(&acc.classes), gstr(&t), gres(b.map(|b| g_classes(&b)))))); }
 			Err(p) => r.violation(format!("read_into panicked: {p}"), format!("property C12\nread_into panicked: {p}\ntext (code points): {}\n", gstr(&t))),
+		}
+	}
+	// 3d'. (round 7) the byte level of the writers: the model's utf8_encode against the bytes of Rust strings (stream `utf8`:
+	// every boundary of the 1-/2-/3-/4-byte forms and random scalar values) and against the RAW bytes enigma_file::write_one
+	// hands to its writer (stream `write-one-bytes`; the other streams compare the text decoded by String::from_utf8)
+	{
+		const EDGE: [u32; 16] = [0, 0x41, 0x7F, 0x80, 0xE9, 0x7FF, 0x800, 0x20AC, 0xD7FF, 0xE000, 0xFFFD, 0xFFFF, 0x10000, 0x1F600, 0x10FFFE, 0x10FFFF];
+		let n_str = if ctx.thorough { 200 } else { 40 };
+		for i in 0..n_str {
+			let len = if i == 0 { 0 } else { 1 + rng.below(12) as usize };
+			let t: S = if i == 1 { EDGE.to_vec() } else { (0..len).map(|_| if rng.chance(1, 2) { *rng.pick(&EDGE[..]) } else { loop { let c = rng.below(0x110000) as u32; if char::from_u32(c).is_some() { break c; } } }).collect() };
+			let bytes = text_of(&t).into_bytes();
+			r.eval(&gstr(&t), !t.is_empty());
+			for &c in &t { r.count(match c { 0..=0x7F => "utf8_1byte", 0x80..=0x7FF => "utf8_2byte", 0x800..=0xFFFF => "utf8_3byte", _ => "utf8_4byte" }); }
+			r.case("utf8", compact(&format!("CBytes {} {}", gstr(&t), glist(bytes.iter().map(|b| b.to_string())))));
+		}
+		let n_sets = if ctx.thorough { 120 } else { 30 };
+		for _ in 0..n_sets {
+			let m = gen_valid(&mut rng);
+			let roots: Vec<S> = m.classes.iter().filter(|c| parent_in(&m, c).is_none()).map(file_name).filter(|n| scalar(n)).collect();
+			if roots.is_empty() { continue; }
+			let name = rng.pick(&roots[..]).clone();
+			let Ok(q) = to_quill(&m) else { r.count("not_buildable"); continue; };
+			let q: Q = q;
+			let name_s = text_of(&name);
+			crumb(&replay("the harness process died while write_one wrote this set", &m, ""));
+			match guarded(move || { let mut v = Vec::new(); match quill::enigma_file::write_one(&q, &name_s, &mut v) { Ok(()) => Some(v), Err(_) => None } }) {
+				Ok(b) => {
+					r.eval(&format!("write_one bytes {}", gstr(&name)), b.is_some());
+					r.count(if b.is_some() { "write_one_bytes_ok" } else { "write_one_bytes_err" });
+					if let Some(v) = &b {
+						if v.iter().any(|&x| x >= 0x80) { r.count("write_one_bytes_non_ascii"); }
+						// on the implementation alone: the bytes are UTF-8 and read_into on them gives what read_into gives on the decoded text
+						match std::str::from_utf8(v) {
+							Err(_) => r.violation("write_one wrote bytes that are not UTF-8".into(), replay("write_one wrote bytes that are not UTF-8", &m, &format!("file {}\nbytes: {:?}\n", gstr(&name), v))),
+							Ok(t) => { let a = impl_read_bytes(v); let b2 = impl_read(&cps_str(t)); if a != b2 { r.violation("read_into differs between the written bytes and their text".into(), replay("read_into differs between the bytes write_one wrote and the decoded text", &m, &format!("file {}\n", gstr(&name)))); } }
+						}
+					}
+					r.case("write-one-bytes", compact(&format!("CWriteOneBytes {} {} {}", g_classes(&m.classes), gstr(&name), gres(b.map(|v| glist(v.iter().map(|x| x.to_string())))))));
+				}
+				Err(p) => r.violation(format!("write_one panicked: {p}"), replay("write_one panicked", &m, &p)),
+			}
 		}
 	}
 	// 3e. bytes that are not UTF-8 (BufRead::lines yields an error for that line): an error of the read, never a panic
